@@ -164,7 +164,14 @@ class Element:
         #  the code base for tests to run.
         if obj is None:
             return
-        return obj.__dict__[self.name]
+        try:
+            return obj.__dict__[self.name]
+        except KeyError:
+            # Repeated children are list members; they aren't stored under the
+            # name of their list attribute.  hasattr() & Co. need AttributeError.
+            raise AttributeError(
+                f"'{type(obj).__name__}' object has no attribute '{self.name}'"
+            ) from None
 
     def __set__(self, obj, value) -> None:
         """Perform validation and type conversion before setting value.
